@@ -13,6 +13,7 @@ import (
 	"net/netip"
 	"reflect"
 	"runtime"
+	"slices"
 	"sort"
 	"strings"
 	"sync"
@@ -83,10 +84,9 @@ func vc07DrawCase(t *rapid.T, st *vstat.Stats, maxStreams, maxPerStream int) (c 
 	c = &vc07Case{}
 	c.Conf.known = st.Known
 	c.Conf.OverrideTTL = rapid.Bool().Draw(t, "overrideTTL")
-	// Mostly the ECS cache; sometimes no cache at all, so that every answer is
-	// the upstream's decoded message.  (The simple cache registers global
-	// metrics and cannot be instantiated more than once per process.)
-	c.Conf.CacheType = rapid.SampledFrom([]dnssvc.CacheType{dnssvc.CacheTypeECS, dnssvc.CacheTypeECS, dnssvc.CacheTypeECS, dnssvc.CacheTypeECS, dnssvc.CacheTypeNone}).Draw(t, "cacheType")
+	// The ECS cache, the simple cache, or no cache at all (every answer is then
+	// the upstream's decoded message).
+	c.Conf.CacheType = rapid.SampledFrom([]dnssvc.CacheType{dnssvc.CacheTypeECS, dnssvc.CacheTypeECS, dnssvc.CacheTypeECS, dnssvc.CacheTypeSimple, dnssvc.CacheTypeSimple, dnssvc.CacheTypeNone}).Draw(t, "cacheType")
 
 	// One case in three runs on the real filter storage (shared rule lists with
 	// result caches, per-profile custom rules) and the real profile database.
@@ -246,7 +246,7 @@ func (c *vc07Case) String() string {
 
 // vc07Render renders a decoded message with owner names lower-cased (RFC 4343)
 // and, if maskTTL, the TTLs of ordinary records zeroed.
-func vc07Render(wire []byte, maskTTL bool) (s string, ttls []uint32, m *dns.Msg) {
+func vc07Render(wire []byte, maskTTL, dropOPT bool) (s string, ttls []uint32, m *dns.Msg) {
 	if wire == nil {
 		return "<no response>", nil, nil
 	}
@@ -254,6 +254,10 @@ func vc07Render(wire []byte, maskTTL bool) (s string, ttls []uint32, m *dns.Msg)
 	m = &dns.Msg{}
 	if err := m.Unpack(wire); err != nil {
 		return fmt.Sprintf("<undecodable: %v>", err), nil, nil
+	}
+
+	if dropOPT {
+		m.Extra = slices.DeleteFunc(m.Extra, func(rr dns.RR) bool { return rr.Header().Rrtype == dns.TypeOPT })
 	}
 
 	for _, sec := range [][]dns.RR{m.Answer, m.Ns, m.Extra} {
@@ -371,7 +375,7 @@ func vc07EventsString(evs []vc07Event) string {
 
 // vc07Compare checks one outcome of a shared run against the outcome the same
 // request has alone, and against what the request itself says.
-func vc07Compare(r *vc07Req, got, alone vc07Outcome) (problems []string) {
+func vc07Compare(r *vc07Req, got, alone vc07Outcome, simpleCache bool) (problems []string) {
 	bad := func(format string, args ...any) { problems = append(problems, fmt.Sprintf(format, args...)) }
 	if got.Err != "" {
 		bad("%s", got.Err)
@@ -381,26 +385,31 @@ func vc07Compare(r *vc07Req, got, alone vc07Outcome) (problems []string) {
 		bad("%d responses written, %d when alone", got.Writes, alone.Writes)
 	}
 
-	gs, gTTL, gm := vc07Render(got.Wire, true)
-	as, aTTL, _ := vc07Render(alone.Wire, true)
+	verdict := vc07Verdict(r)
+	if verdict == "real" {
+		// Blocked by a rule (no rewrites are configured): the records are the
+		// server's own.
+		for _, e := range alone.Events {
+			if e.Kind == "rulestat" && strings.Contains(e.Data, "||") && !strings.Contains(e.Data, "@@") {
+				verdict = "blocked"
+			}
+		}
+	}
+
+	// A hit of the simple cache carries no OPT record at all (the cache leaves
+	// it to the socket server's normalisation, which is outside the handlers),
+	// while a miss passes the upstream's on: for answers that come from the
+	// upstream the OPT record is then not part of the comparison.
+	dropOPT := simpleCache && (verdict == "pass" || verdict == "allowed" || verdict == "cname" || verdict == "real")
+	gs, gTTL, gm := vc07Render(got.Wire, true, dropOPT)
+	as, aTTL, _ := vc07Render(alone.Wire, true, dropOPT)
 	if gs != as {
 		bad("response differs from the one the request gets alone:\n        got   %s\n        alone %s", gs, as)
 	} else {
-		verdict := vc07Verdict(r)
 		for i := range gTTL {
 			// Records built by the server for this request carry the profile's
 			// TTL exactly; records that may come from the cache may only be
 			// older.
-			if verdict == "real" {
-				// Blocked by a rule (no rewrites are configured): the records are
-				// the server's own.
-				for _, e := range alone.Events {
-					if e.Kind == "rulestat" && strings.Contains(e.Data, "||") && !strings.Contains(e.Data, "@@") {
-						verdict = "blocked"
-					}
-				}
-			}
-
 			exact := verdict == "blocked" || verdict == "resp-blocked" || verdict == "rewritten" || verdict == "safe-browsing" || (verdict == "cname" && i == 0)
 			if gTTL[i] > aTTL[i] || (exact && gTTL[i] != aTTL[i]) {
 				bad("TTL of record %d is %d, alone %d (verdict %s)", i, gTTL[i], aTTL[i], verdict)
@@ -414,7 +423,7 @@ func vc07Compare(r *vc07Req, got, alone vc07Outcome) (problems []string) {
 
 	// Direct identity checks on the shared-run response (with its real TTLs).
 	if gm != nil {
-		_, _, gm = vc07Render(got.Wire, false)
+		_, _, gm = vc07Render(got.Wire, false, false)
 	}
 
 	if gm != nil {
@@ -900,6 +909,69 @@ func vc07Adjacent(order []*vc07Req) (classes []string) {
 	return classes
 }
 
+// vc07SimpleHitAfterPooled classifies a simple-cache case: in the given order
+// (nil: any order), an upstream answer is cached, then some response is built
+// from the cloner's pools (a blocked or rewritten answer), then the cached
+// question is asked again.
+func vc07SimpleHitAfterPooled(c *vc07Case, order []*vc07Req) (classes []string) {
+	if c.Conf.CacheType != dnssvc.CacheTypeSimple {
+		return nil
+	}
+
+	classes = []string{"cache-simple"}
+	reqs, ordered := order, order != nil
+	if !ordered {
+		reqs = c.Reqs
+	}
+
+	state := map[string]int{}
+	pooled, repeat := false, false
+	for _, r := range reqs {
+		if r.Cancel {
+			continue
+		}
+
+		cat, _ := vc07CatOf(r.Name)
+		v := vc07Verdict(r)
+		constructed := v == "blocked" || v == "resp-blocked" || v == "rewritten" || v == "safe-browsing" || v == "cname" || (v == "real" && cat == "ml")
+		if constructed {
+			pooled = true
+			for k, st := range state {
+				if st == 1 {
+					state[k] = 2
+				}
+			}
+		}
+
+		if cat == "err" || (constructed && v != "resp-blocked" && v != "cname") {
+			continue
+		}
+
+		if vc07InScheme(r.Name) {
+			kind, ttl := vdns.KindOf(r.Name)
+			if ok, _ := vdns.Cacheable(kind, r.QType, ttl); !ok && r.QType != dns.TypeHTTPS {
+				continue
+			}
+		}
+
+		key := fmt.Sprintf("%s|%d|%t", strings.ToLower(r.Name), r.QType, r.DO)
+		switch state[key] {
+		case 0:
+			state[key] = 1
+		case 1:
+			repeat = true
+		case 2:
+			classes = append(classes, "simple-cache-hit-after-pooled-response")
+		}
+	}
+
+	if !ordered && pooled && (repeat || len(classes) > 1) {
+		classes = append(classes[:1], "simple-cache-repeat-with-pooled-response")
+	}
+
+	return classes
+}
+
 func vc07Report(t *rapid.T, c *vc07Case, what string, problems []string) {
 	if len(problems) == 0 {
 		return
@@ -917,7 +989,8 @@ func TestVerifC07StackSequential(t *testing.T) {
 		"overlap-different-profiles", "same-name-different-verdicts", "cache-hits", "debug-query", "verdict-blocked", "verdict-rewritten", "verdict-cname", "verdict-resp-blocked", "via-sni", "via-cpe", "via-linked", "via-anon", "ecs-client", "https-question",
 		"near-miss", "near-miss-do", "near-miss-case", "near-miss-qtype", "near-miss-nothing", "combined-categories", "upstream-error", "cancelled-context", "two-ecs-options", "minimal-name", "msg-id-zero",
 		"adjacent-anon-after-profile", "adjacent-other-profile", "adjacent-unlogged-after-logged", "adjacent-noiplog-after-iplog", "adjacent-noedns-after-edns", "adjacent-plain-after-dot", "adjacent-after-failed-request",
-		"real-filters-and-profiledb", "same-name-multi-rule-list-plus-custom", "real-rule-block", "real-rule-exception", "real-rule-important", "real-rule-client", "real-rule-response-stage", "device-filtering-off")
+		"real-filters-and-profiledb", "same-name-multi-rule-list-plus-custom", "real-rule-block", "real-rule-exception", "real-rule-important", "real-rule-client", "real-rule-response-stage", "device-filtering-off",
+		"cache-simple", "simple-cache-hit-after-pooled-response")
 	st.Finish(t)
 
 	rapid.Check(t, func(t *rapid.T) {
@@ -945,7 +1018,7 @@ func TestVerifC07StackSequential(t *testing.T) {
 		var problems []string
 		for _, r := range order {
 			out := shared.serve(r)
-			for _, p := range vc07Compare(r, out, alone[r.N]) {
+			for _, p := range vc07Compare(r, out, alone[r.N], c.Conf.CacheType == dnssvc.CacheTypeSimple) {
 				problems = append(problems, fmt.Sprintf("request %s: %s", r, p))
 			}
 		}
@@ -953,6 +1026,7 @@ func TestVerifC07StackSequential(t *testing.T) {
 		problems = append(problems, shared.fails...)
 		classes, nt := vc07Classify(c, shared.up.calls.Load(), alone)
 		classes = append(classes, vc07Adjacent(order)...)
+		classes = append(classes, vc07SimpleHitAfterPooled(c, order)...)
 		key := ""
 		if nt {
 			key = c.String()
@@ -978,7 +1052,8 @@ func TestVerifC07StackConcurrent(t *testing.T) {
 	st := vstat.New("C07", "stack.concurrent",
 		"the same request sets, 2..8 streams of 1..5 requests, every stream in its own goroutine on one stack (start together, drawn scheduler yields before each request), two repetitions on fresh stacks; responses and recorder entries compared with the same request alone on a fresh stack; under the race detector when built with -race; non-trivial = two streams of different profiles ask the same (name, type)",
 		"overlap-different-profiles", "same-name-different-verdicts", "cache-hits", "debug-query", "verdict-blocked", "verdict-cname", "near-miss", "combined-categories", "upstream-error", "cancelled-context",
-		"same-name-multi-rule-list-plus-custom", "same-name-multi-rule-list-plus-custom-burst", "real-rule-client", "real-rule-response-stage")
+		"same-name-multi-rule-list-plus-custom", "same-name-multi-rule-list-plus-custom-burst", "real-rule-client", "real-rule-response-stage",
+		"cache-simple", "simple-cache-repeat-with-pooled-response")
 	st.Finish(t)
 
 	reps := vstat.Scale(2, 3)
@@ -1015,7 +1090,7 @@ func TestVerifC07StackConcurrent(t *testing.T) {
 
 			for s, stream := range c.Streams {
 				for i, r := range stream {
-					for _, p := range vc07Compare(r, outs[s][i], alone[r.N]) {
+					for _, p := range vc07Compare(r, outs[s][i], alone[r.N], c.Conf.CacheType == dnssvc.CacheTypeSimple) {
 						problems = append(problems, fmt.Sprintf("repetition %d request %s: %s", rep, r, p))
 					}
 				}
@@ -1026,6 +1101,7 @@ func TestVerifC07StackConcurrent(t *testing.T) {
 		}
 
 		classes, nt := vc07Classify(c, calls, alone)
+		classes = append(classes, vc07SimpleHitAfterPooled(c, nil)...)
 		key := ""
 		if nt {
 			key = c.String()
